@@ -482,6 +482,13 @@ class Interp:
             # when every x with C(x) has P(x).  The path fixes what the generic element is like; the result is the one
             # the quantifier has when *every* element is like that (all) / *some* element is like that (any).  The
             # event lets rules see which elements were tested with what outcome.
+            # the source may be empty: all() is then true and any() false whatever P is (vacuous truth), with no
+            # element tested.  Decided against what is known about the length of the source.
+            empty = self._source_may_be_empty(src, g.iter)
+            if empty:
+                t0 = which == "all"
+                self.emit(Ev("quantifier", src=payload, elem=None, value=None, info=(which, False, t0, "empty-source"), site=self.site(node, fr)))
+                return TRUE if t0 else FALSE
             cfr = Frame(fr.fi, fr.mod, parent=fr)
             cfr.self_av = fr.self_av
             el = self.host.make_elem(payload, g.iter)
@@ -1092,6 +1099,29 @@ class Interp:
             st,
             orelse=(lambda: self.exec_block(st.orelse, fr)) if st.orelse else None,
         )
+
+    def _source_may_be_empty(self, src: Any, node: ast.AST) -> bool:
+        """Fork on 'the iterated value is empty' for a JSON value / abstract source whose length is a linear form;
+        the choice is recorded in the octagon so that later length tests agree with it."""
+        if not isinstance(src, (Sym, Source)):
+            return False
+        if isinstance(src, Sym) and self.kind_of(src) not in ("list", "dict", "str"):
+            return False
+        try:
+            n = self.host.length(src, node)
+        except Exception:  # noqa: BLE001
+            return False
+        if not isinstance(n, IntV):
+            return False
+        if self.ctx.oct.entails_le0(Lin.k(1) - n.lin):
+            return False
+        if self.ctx.oct.entails_le0(n.lin):
+            return True
+        if self.ctx.choose(("empty-source", getattr(src, "id", 0)), [False, True]):
+            self.ctx.assume_le0(n.lin)
+            return True
+        self.ctx.assume_le0(Lin.k(1) - n.lin)
+        return False
 
     def s_While(self, st: ast.While, fr: Frame) -> None:
         probe = None
